@@ -379,7 +379,19 @@ def result_coq(cols, rows):
 
 
 def run_impl(case: Case, session, F, exp):
-    """-> (exported Coq term or 'None', impl Coq term or 'None', info dict)"""
+    """-> (exported Coq term or 'None', impl Coq term or 'None', info dict).
+    CTE names are 8-digit prefixes of a crc32; the model assumes they do not collide inside one query.  A chance
+    collision involving a uuid-filtered CTE (fresh uuid = fresh hash on every construction) shows as DuckDB's
+    'Duplicate CTE name': such a run is repeated (counted in the evidence); a collision that persists is reported."""
+    for attempt in range(3):
+        exported, impl, info = _run_impl_once(case, session, F, exp)
+        info["hash_collision_retries"] = attempt
+        if not (info["exc"] and "Duplicate CTE name" in info["exc"]):
+            break
+    return exported, impl, info
+
+
+def _run_impl_once(case: Case, session, F, exp):
     info = {"exc": None, "export_note": None, "sql": None}
     exported, impl = "None", "None"
     try:
@@ -755,6 +767,7 @@ def run(ctx: core.Ctx):
     items, infos, res = evaluate(ctx, "c07", cases, session, F, exp)
     hist_call, hist_depth, hist_origin, hist_mult = {}, {}, {}, {}
     n_raise = n_t2 = n_exportable = n_dom = n_nontriv = n_invalid = n_common = n_null = 0
+    n_retries = sum(i.get("hash_collision_retries", 0) for i in infos)
     model_fail, t2_fail, devs = [], [], {}
     for c, it, info, v in zip(cases, items, infos, res):
         for cl in calls_in(c.tree):
@@ -884,6 +897,7 @@ def run(ctx: core.Ctx):
         "cases_with_common_ancestor": n_common, "cases_with_null": n_null, "outside_spark_domain": n_invalid,
         "histogram_call": hist_call, "histogram_setop_depth": hist_depth, "histogram_origin": hist_origin,
         "histogram_row_multiplicity(4=4+)": hist_mult, "impl_raised": n_raise,
+        "runs_repeated_after_a_chance_crc32_name_collision": n_retries,
         "pyspark_recordings_checked": n_rec, "pyspark_recordings_disagree": n_rec_bad, "pyspark_recorded_errors": n_rec_err,
     })
     ctx.assumptions += [
